@@ -288,12 +288,19 @@ func trav(r *Run, focus string) {
 	r.Swarm["lateAdds"], r.Swarm["earlyStop"], r.Swarm["dupIDs"] = lateAdds, earlyStop, dupIDs
 	// ---- nodes
 	usedAddr := map[string]bool{}
+	mappedAddrs := 0
 	mkAddr := func() krpc.NodeAddr {
 		for {
 			var a krpc.NodeAddr
-			if r.Rng.Intn(5) == 0 {
+			switch x := r.Rng.Intn(10); {
+			case x < 2:
 				a = toNodeAddr(r.PublicV6(), 1+r.Rng.Intn(65535))
-			} else {
+			case x == 2:
+				// an IPv4 address in its 16-byte IPv4-mapped form (as nodes6 lists and
+				// dual-stack sockets report it): still one address, to be queried once
+				a = toNodeAddr(r.PublicV4().To16(), 1+r.Rng.Intn(65535))
+				mappedAddrs++
+			default:
 				a = toNodeAddr(r.PublicV4(), 1+r.Rng.Intn(65535))
 			}
 			if k := addrKey(a); !usedAddr[k] {
@@ -366,6 +373,9 @@ func trav(r *Run, focus string) {
 	}
 	if sameHostTwins > 0 {
 		r.Probe("same-id-same-host-twins")
+	}
+	if mappedAddrs > 0 {
+		r.Probe("v4-mapped-contact")
 	}
 	// victim addresses listed under many ids; filtered addresses
 	var victims []*tnode
@@ -581,6 +591,8 @@ func trav(r *Run, focus string) {
 	var watchHit, watchClosed atomic.Bool
 	watchAck := make(chan struct{}, 1)
 	defer close(watchAck)
+	watchQuit := make(chan struct{})
+	defer close(watchQuit)
 	if watcher {
 		r.Go("watcher", func() any {
 			snapshot := func() { // tw.mu held
@@ -621,8 +633,13 @@ func trav(r *Run, focus string) {
 					tw.mu.Unlock()
 					// wait for the next change; a received value is the signal itself
 					// (value style), a closed channel is re-tested under the lock
-					if _, isValue := <-op.Stalled(); !isValue {
-						continue
+					select {
+					case _, isValue := <-op.Stalled():
+						if !isValue {
+							continue
+						}
+					case <-watchQuit:
+						return nil // the scenario is over
 					}
 					tw.mu.Lock()
 					snapshot()
@@ -1112,6 +1129,15 @@ func trav(r *Run, focus string) {
 			r.Violate("stop-never-completes", "Stop called and every in-flight query returned, nothing runnable, Stopped() still open; parked=%v", r.Sched.ParkedDesc())
 		}
 		return
+	}
+	if focus == "C03" {
+		// a stopped lookup reports stalled for good: whoever waits on Stalled() now must not hang
+		select {
+		case <-op.Stalled():
+		default:
+			r.Violate("stalled-not-reported-after-stop", "the lookup has stopped (Stopped() fired, nothing in flight) but Stalled() is not ready: a consumer waiting on it now waits for ever")
+			return
+		}
 	}
 	if focus == "C02" {
 		checkClosest("stopped")
